@@ -244,7 +244,18 @@ func (d *duplexHTTPCall) SetError(err error) {
 	//
 	// It's safe to ignore the returned error here. Under the hood, Close calls
 	// CloseWithError, which is documented to always return nil.
-	_ = d.requestBodyReader.Close()
+	if errors.Is(err, io.EOF) {
+		// The response ended normally. The HTTP client may not have consumed the
+		// end of the request body yet; closing the read side under it would look
+		// like a failed request body and make it abort a stream that completed
+		// successfully (so that CloseResponse, and with it unary calls, fail
+		// with "io: read/write on closed pipe"). Close the write side instead:
+		// the HTTP client sees a clean end of the request body, and further
+		// Writes still fail with an error wrapping io.EOF.
+		_ = d.requestBodyWriter.Close()
+	} else {
+		_ = d.requestBodyReader.Close()
+	}
 	d.finish()
 }
 
